@@ -82,10 +82,21 @@ func (f *fakeAPI) Propose(ctx context.Context, p *mr.RaftProposal) (*mr.RaftResp
 	time.Sleep(before)
 	applied := true
 	if failed {
-		// a failed write may or may not have taken effect
+		// a failed write may have taken effect, may never take effect, or may take effect later (after its caller has been
+		// told that it failed: the proposal was still in flight)
 		f.mu.Lock()
-		applied = f.r.Intn(2) == 0
+		how := f.r.Intn(3)
+		late := time.Duration(5+f.r.Intn(25)) * time.Millisecond
 		f.mu.Unlock()
+		applied = how == 0
+		if how == 2 {
+			go func(v string) {
+				time.Sleep(late)
+				f.mu.Lock()
+				f.val = v
+				f.mu.Unlock()
+			}(k.Val)
+		}
 	}
 	if applied {
 		f.mu.Lock()
@@ -283,6 +294,11 @@ func judge(evs []lcm.VerifEvent, parsed []porcupine.Event, kind string, seq int,
 			ops = ops[:60]
 		}
 		run.Violate(hx.Violation{Property: "C07", Clause: clause, Signature: sig, What: what, Seq: seq, Ops: ops})
+		if clause == "failed_write_open_ended" {
+			// what the checker binary decides on is the parsed history: an operation of unknown outcome that the parser
+			// closes early (or with a definite outcome) is no longer unconstrained for the checker (C06)
+			run.Violate(hx.Violation{Property: "C06", Clause: "verdict_exact_at_the_binary", Signature: sig, What: what, Seq: seq, Ops: ops})
+		}
 	}
 	if kind == "recorded" {
 		if msg := wellFormed(evs); msg != "" {
@@ -318,9 +334,11 @@ func judge(evs []lcm.VerifEvent, parsed []porcupine.Event, kind string, seq int,
 		ps := decode(parsed)
 		lastCall := -1
 		retPos := map[int]int{}
+		callPos := map[int]int{}
 		for i, p := range ps {
 			if p.call {
 				lastCall = i
+				callPos[int(p.id)] = i
 			} else {
 				retPos[int(p.id)] = i
 			}
@@ -332,6 +350,16 @@ func judge(evs []lcm.VerifEvent, parsed []porcupine.Event, kind string, seq int,
 			case e.Result == 0:
 				opOf[e.ID] = k
 				k++
+			case e.Result == 2 && e.Type == 0:
+				// a failed read changes nothing, now or later: it is closed where it failed, i.e. before the call of whatever
+				// was invoked next (the same operations in the same order)
+				if cp, ok := callPos[k]; ok {
+					run.Count("c07:failed_read_checked_closed_in_place")
+					if pos, ok2 := retPos[opOf[e.ID]]; !ok2 || pos > cp {
+						fail("log_roundtrip", "failed-read-left-open", fmt.Sprintf("the failed read of process %d (operation %d) is not closed where it failed: its return is at position %d of the parsed history, after the call of the operation invoked next (position %d)", e.ID, opOf[e.ID], pos, cp))
+						return
+					}
+				}
 			case e.Result == 2 && e.Type == 1:
 				if pos, ok := retPos[opOf[e.ID]]; ok && pos < lastCall {
 					fail("failed_write_open_ended", "failed-write-closed-early", fmt.Sprintf("the failed write of process %d (operation %d) is given a return at position %d of the parsed history, before the call at position %d: it can no longer take effect later", e.ID, opOf[e.ID], pos, lastCall))
@@ -615,6 +643,19 @@ func main() {
 			run.Violate(hx.Violation{Property: "C07", Clause: "faithful_history_accepted", Signature: sig, Seq: 5000 + nops, What: what, Ops: evs[:minInt(len(evs), 60)]})
 			run.Violate(hx.Violation{Property: "C06", Clause: "verdict_exact_at_the_binary", Signature: sig, Seq: 5000 + nops, What: what, Ops: evs[:minInt(len(evs), 60)]})
 		}
+	}
+	// a write that is answered with a failure and takes effect afterwards (the proposal was still in flight): reads after
+	// the failure first see the old value, then the new one. The run is linearizable exactly because a failed write stays
+	// open-ended in the parsed history; also with the late effect never happening.
+	for variant, tail := range [][]lcm.VerifEvent{
+		{{Type: 0, Result: 0, ID: 3, Value: math.MaxUint64}, {Type: 0, Result: 1, ID: 3, Value: 1}, {Type: 0, Result: 0, ID: 3, Value: math.MaxUint64}, {Type: 0, Result: 1, ID: 3, Value: 2}},
+		{{Type: 0, Result: 0, ID: 3, Value: math.MaxUint64}, {Type: 0, Result: 1, ID: 3, Value: 1}, {Type: 0, Result: 0, ID: 3, Value: math.MaxUint64}, {Type: 0, Result: 1, ID: 3, Value: 1}},
+	} {
+		evs := append([]lcm.VerifEvent{{Type: 1, Result: 0, ID: 1, Value: 1}, {Type: 1, Result: 1, ID: 1, Value: 1},
+			{Type: 1, Result: 0, ID: 2, Value: 2}, {Type: 1, Result: 2, ID: 2, Value: 2}}, tail...)
+		parsed := roundTrip(c, evs, dir, 6000+variant)
+		run.Count("case:failed_write_with_late_effect")
+		judge(evs, parsed, "synthetic", 6000+variant, true)
 	}
 	_ = totalEv
 }
